@@ -35,7 +35,24 @@ TYPES = ["_http._tcp.local.", "_x._udp.local."]
 OFFS = [-200, -1, 0, 1, 5, 19, 20, 21, 60, 119, 120, 121, 250, 375, 499, 500, 501, 620, 800, 999, 1000, 1001, 1119, 1120, 1121, 1200, 1300]
 
 
+def gen_overlap(rng, idx):
+    """two services on one host name whose address sets overlap only partly: a withdrawn address can sit in the queue as an
+    *additional* of an answer that is not withdrawn"""
+    v6 = ["fe80000000000000000000000000000c"]
+    svcs = [{"inst": "svc%d" % i, "type": rng.choice(TYPES), "server": "hostc.local.", "v4": ["0a00000%d" % (3 + i)], "v6": v6, "port": 80 + i,
+             "text": "", "host_ttl": 120, "other_ttl": 4500} for i in range(2)]
+    q = rng.choice([900, 1100, 1300, 1700]) + rng.randint(0, 30)
+    first = rng.randrange(2)
+    ops = [{"op": "register", "svc": 0, "at": 0}, {"op": "register", "svc": 1, "at": 0},
+           {"op": "query", "at": q, "svc": first, "kind": rng.choice(["a", "a", "ptr+a"]), "delay": 0},
+           {"op": "unregister", "svc": first, "at": q + rng.choice([2, 5, 40])},
+           {"op": "unregister", "svc": 1 - first, "at": q + rng.choice([6, 50, 200])}]
+    return {"idx": idx, "svcs": svcs, "ops": ops, "seed": rng.randrange(1 << 30), "delays": [0] * 60, "draws": [rng.choice([20, 60, 120]) for _ in range(6)]}
+
+
 def gen_scenario(rng, idx):
+    if rng.random() < 0.08:
+        return gen_overlap(rng, idx)
     nsvc = rng.choice([1, 1, 2, 2, 3])
     svcs = []
     for i in range(nsvc):
@@ -491,7 +508,7 @@ def oracle(sc, obs, res, case):
                         dg.append(ev[jj][3])
                         jj += 1
                     gb.append((x[1], dg, jj - 1))
-            cut = any(x[0] == "close" and t < x[1] <= t + 2 * GOODBYE for x in ev)  # closed by another call before the sequence ended
+            cut = any(x[0] == "close" and t <= x[1] <= t + 2 * GOODBYE for x in ev)  # closed by another call before the sequence ended
             if not cut and [g[0] for g in gb] != [t, t + GOODBYE, t + 2 * GOODBYE]:
                 viol.append(("C08:goodbye-all-times", "goodbyes of all services at %r" % [g[0] - t for g in gb]))
             for (tg, dg, _) in gb:
@@ -585,9 +602,9 @@ def compare(res, pending, model):
 def run(ctx):
     res = C.Result("C08")
     rng = C.rng_for(ctx["seed"], "c08")
-    n = C.Budget(ctx["tier"], 1200, 25000).n
+    n = C.Budget(ctx["tier"], 4000, 60000).n
     if ctx["widened"]:
-        n *= 3
+        n *= 2
     res.rule = ("scenarios = 1-3 services (shared / unshared host names, v4/v6 mixes, custom TTLs) x queries (single and multi-question, QM/QU/legacy unicast; answered at once, "
                 "aggregated up to 500 ms, flood-delayed 1 s) x unregister / unregister right after register / update / unregister-all / close at offsets "
                 "{-200..1300 ms} around the queries and the queue deadlines; non-trivial = distinct (withdrawals with answers queued, block kinds, trace length)")
